@@ -145,10 +145,18 @@ func c14Run(c c14case) [][]int64 {
 				if op[2] != 0 {
 					callErr = errors.New("handler failed")
 				}
-				resp, err := ic(context.Background(), "req", &grpc.UnaryServerInfo{FullMethod: "/m"}, func(ctx context.Context, req interface{}) (interface{}, error) {
+				// every third call is abandoned by its caller while the handler runs (the context is cancelled mid-call):
+				// the token must still be completed exactly once, by the classified outcome
+				cctx, cancel := context.WithCancel(context.Background())
+				abandon := len(out)%3 == 1
+				resp, err := ic(cctx, "req", &grpc.UnaryServerInfo{FullMethod: "/m"}, func(ctx context.Context, req interface{}) (interface{}, error) {
 					log.add(2)
+					if abandon {
+						cancel()
+					}
 					return respObj, callErr
 				})
+				cancel()
 				o := append([]int64{}, log.ev...)
 				o = append(o, retCode(resp, err, respObj, callErr, nil)...)
 				out = append(out, o)
@@ -162,10 +170,16 @@ func c14Run(c c14case) [][]int64 {
 				if op[2] != 0 {
 					callErr = errors.New("invoker failed")
 				}
-				err := ic(context.Background(), "/m", "req", "reply", nil, func(ctx context.Context, method string, req, reply interface{}, cc *grpc.ClientConn, opts ...grpc.CallOption) error {
+				cctx, cancel := context.WithCancel(context.Background())
+				abandon := len(out)%3 == 1
+				err := ic(cctx, "/m", "req", "reply", nil, func(ctx context.Context, method string, req, reply interface{}, cc *grpc.ClientConn, opts ...grpc.CallOption) error {
 					log.add(2)
+					if abandon {
+						cancel()
+					}
 					return callErr
 				})
+				cancel()
 				o := append([]int64{}, log.ev...)
 				o = append(o, retCode(nil, err, nil, callErr, func(interface{}) bool { return true })...)
 				out = append(out, o)
